@@ -187,7 +187,7 @@ def case_tree(desc: dict[str, Any], t: Any) -> tuple[dict[str, Any], list[str], 
 
 TREE_NAMES = ['file_input', 'block', 'function_def', 'parameters', 'a', 'ab', 'a_b', '__empty__', 'typed_var', 'elif_clauses', 'name']
 TOKEN_TYPES = ['NAME', 'STRING', 'DEC_NUMBER', '__ANON_0', '__ANON_12', 'COLON', 'PLUS', 'COMMENT', 'name']
-VALUES = ['', 'x', 'self', "'s'", '"d\\n"', 'あい', 'a b', '->', '\t', 'a\nb', '\\', '\U0001F600', '\x7f', '0', 'None', ' ']
+VALUES = ['# c  ', '# c\r', 'x\t', '\n', "'''a\n'''", '', 'x', 'self', "'s'", '"d\\n"', 'あい', 'a b', '->', '\t', 'a\nb', '\\', '\U0001F600', '\x7f', '0', 'None', ' ']
 
 
 def gen_pos(rng: random.Random, mode: str) -> Any:
@@ -217,9 +217,19 @@ def gen_lark(rng: random.Random, max_depth: int, max_width: int, malformed: bool
 		r = rng.random()
 		if r < 0.2:
 			bump('token:no-pos')
-		elif r < 0.55:
+		elif r < 0.4:
 			t.line, t.column, t.end_line, t.end_column = (gen_pos(rng, 'int') for _ in range(4))
 			bump('token:all-int')
+		elif r < 0.55:
+			# a token as the lexer stamps it: one line (end column right of the start) or several lines with the end
+			# column right of, at, or left of the start column
+			ln, col = rng.randint(1, 50), rng.randint(1, 30)
+			if rng.random() < 0.5:
+				t.line, t.column, t.end_line, t.end_column = ln, col, ln, col + rng.randint(1, 9)
+				bump('token:one-line')
+			else:
+				t.line, t.column, t.end_line, t.end_column = ln, col, ln + rng.randint(1, 3), rng.choice([col, 1, rng.randint(1, col), col + 2])
+				bump('token:multi-line')
 		elif r < 0.7:
 			vals = [gen_pos(rng, 'int') for _ in range(4)]
 			vals[rng.randrange(4)] = rng.choice([0, None])
@@ -370,7 +380,13 @@ def gen_sources(ctx: Ctx, rng: random.Random, n_generated: int, n_real: int) -> 
 			out.append((f, fh.read()))
 	for i in range(n_generated):
 		src, d = pygen.gen_module(rng)
-		out.append((f"generated#{i}:{d['unit']}", src))
+		label = f"generated#{i}:{d['unit']}"
+		if i % 8 == 5:
+			# CRLF sources: comment tokens then end in a carriage return, long strings hold \r\n
+			src, label = src.replace('\n', '\r\n'), label + ':crlf'
+		elif i % 8 == 6:
+			src, label = src.rstrip('\n'), label + ':no-final-newline'
+		out.append((label, src))
 	return out
 
 
@@ -379,7 +395,7 @@ def parse_all(app: Any, sources: list[tuple[str, str]]) -> list[tuple[str, Any]]
 	parser = app.resolve(SyntaxParser)
 	out = []
 	for label, src in sources:
-		app.source = src if src.endswith('\n') else src + '\n'
+		app.source = src
 		try:
 			out.append((label, parser(app.main).source))
 		except Exception:  # noqa: BLE001 - outside the grammar: not a tree of this property
@@ -555,8 +571,13 @@ def search_nodes(ctx: Ctx) -> SearchResult:
 	for i in range(ctx.scale(25, 300)):
 		src, d = pygen.gen_module(rng, n_statements=rng.randint(1, 5))
 		mp = f'gen.m{i}'
+		label = f"generated#{i}:{d['unit']}"
+		if i % 6 == 4:
+			src, label = src.replace('\n', '\r\n'), label + ':crlf'
+		elif i % 6 == 5:
+			src, label = src.rstrip('\n') + rng.choice(['', '\n' + d['indent']]), label + ':no-final-newline'
 		proj.write(mp, src)
-		modules.append((mp, f"generated#{i}:{d['unit']}"))
+		modules.append((mp, label))
 	for rel in pygen.real_files(ctx.thorough, rng, ctx.scale(4, 60)):
 		modules.append((rel[:-3].replace(os.sep, '.'), rel))
 	seen = set()
